@@ -21,63 +21,59 @@ def run(ctx):
     quick = ctx.quick()
     # ---- 1. model checking (in the background while behaviours are generated and replayed) -----------------
     if quick:
-        mcs = [("MC_Subs_q_one.cfg", "mc-fixed-1trigger", 900)]
+        mcs = [("MC_Subs_q_one.cfg", "mc-fixed-1trigger", 900), ("MC_Subs_f_err.cfg", "mc-fixed-filter-and-render-errors-updatesubscription", 900)]
     else:
         mcs = [("MC_Subs_q_one.cfg", "mc-fixed-1trigger", 1800), ("MC_Subs_q_same.cfg", "mc-fixed-same-key-filters", 2400),
                ("MC_Subs_q_diff.cfg", "mc-fixed-two-triggers-one-connection", 2400), ("MC_Subs_t_events2.cfg", "mc-fixed-2events", 2400),
                ("MC_Subs_t_hb.cfg", "mc-fixed-heartbeat-2nd-source-goroutine", 3000),
-               ("MC_Subs_live.cfg", "mc-liveness", 2400)]
+               ("MC_Subs_f_err.cfg", "mc-fixed-filter-and-render-errors-updatesubscription", 1800),
+               ("MC_Subs_f_sync.cfg", "mc-fixed-synchronous-wrapper", 2400), ("MC_Subs_live.cfg", "mc-liveness", 2400)]
     pool = ThreadPoolExecutor(max_workers=1)
     mc_future = pool.submit(sc.model_check, ctx, mcs, [("MC_Subs_asis_d5.cfg", ["NoWriteAfterClose"])])
     # ---- 2. generate -------------------------------------------------------------------------------------------
     batches = []
     totals = {}
+    jobs = []
     # (a) exhaustive: every schedule of {2 subscribers set up one after the other} x {one client-side terminator} x {one source-side
     #     terminator} without events (complete/error/done vs unsubscribe/remove client/shutdown), incl. one mutual-exclusion probe
-    s, n = sc.generate(ctx, "term", sc.gen_cfg("term", MaxEvents=0, MaxTerm=1, MaxSrcTerm=1, MaxProbes=1, CfgOK="CfgRace"), rng,
-                       cap=500 if quick else None, timeout=1200)
-    batches.append(("term", s))
-    totals["term"] = n
+    jobs.append(("term", sc.gen_cfg("term", MaxEvents=0, MaxTerm=1, MaxSrcTerm=1, MaxProbes=1, CfgOK="CfgRace"), dict(cap=300 if quick else None, timeout=1200)))
     # (a') exhaustive: pure delivery, two events through one trigger with every filter combination; each schedule several times
     #      (the order in which the code walks its subscriber map is not ours to choose)
-    s, n = sc.generate(ctx, "deliver", sc.gen_cfg("deliver", MaxEvents=2, MaxTerm=0, MaxSrcTerm=0, CfgOK="CfgSame"), rng, timeout=600)
-    rep = []
-    for k, fk in enumerate(sc.FKS):          # once per way of writing the filter value (static / variable: number, array, true, false, string)
-        for x in s:
-            y = dict(x)
-            y["id"] = "%s-r%d" % (x["id"], k)
-            y["kv"] = sc.KVS[k % len(sc.KVS)]
-            y["fk"] = fk
-            rep.append(y)
-    batches.append(("deliver", rep))
-    totals["deliver"] = n
+    jobs.append(("deliver", sc.gen_cfg("deliver", MaxEvents=2, MaxTerm=0, MaxSrcTerm=0, CfgOK="CfgSame"), dict(timeout=600)))
     # (a'') exhaustive: one event whose resolution performs a nested fetch per subscriber (the update goroutine sits in the fetch,
     #       outside every lock) racing with one client-side terminator
-    s, n = sc.generate(ctx, "fetch", sc.gen_cfg("fetch", MaxEvents=1, MaxTerm=1, MaxSrcTerm=0, CfgOK="CfgFetch"), rng,
-                       cap=350 if quick else None, timeout=1200)
-    batches.append(("fetch", s))
-    totals["fetch"] = n
+    jobs.append(("fetch", sc.gen_cfg("fetch", MaxEvents=1, MaxTerm=1, MaxSrcTerm=0, CfgOK="CfgFetch", Features="FeatFetch"), dict(cap=250 if quick else None, timeout=1200)))
+    # (a3) exhaustive: one trigger, two subscribers, one event (Update or UpdateSubscription); subscriber 2's filter fails or its
+    #      response cannot be rendered: the error goes to exactly that subscriber, racing with one client-side terminator
+    jobs.append(("err", sc.gen_cfg("err", MaxEvents=1, MaxTerm=1, MaxSrcTerm=0, CfgOK="CfgErr", Features="FeatErr", AllowCloseSub="TRUE"), dict(cap=250 if quick else None, timeout=1200)))
     if not quick:
         # (b) exhaustive: the same with one event in flight (update vs removal / completion / flush failure)
-        s, n = sc.generate(ctx, "ev1", sc.gen_cfg("ev1", MaxEvents=1, MaxTerm=1, MaxSrcTerm=1, CfgOK="CfgSame"), rng, cap=8000, timeout=2400)
-        batches.append(("ev1", s))
-        totals["ev1"] = n
+        jobs.append(("ev1", sc.gen_cfg("ev1", MaxEvents=1, MaxTerm=1, MaxSrcTerm=1, CfgOK="CfgSame"), dict(cap=5000, timeout=2400)))
     # (c) sampled: 2 events, heartbeat, second source goroutine, flush / heartbeat failures, probes, every configuration
-    s, n = sc.generate(ctx, "sim", sc.gen_cfg("sim", MaxEvents=2, MaxTerm=1, MaxSrcTerm=1, MaxHB=1, UseD="TRUE", MaxProbes=1, CfgOK="CfgAll", AllowCloseSub="TRUE"),
-                       rng, simulate=2600 if quick else 10000, depth=400, timeout=2400, cap=900 if quick else None)
-    batches.append(("sim", s))
-    totals["sim"] = n
+    jobs.append(("sim", sc.gen_cfg("sim", MaxEvents=2, MaxTerm=1, MaxSrcTerm=1, MaxHB=1, UseD="TRUE", MaxProbes=1, CfgOK="CfgNoHooks", AllowCloseSub="TRUE", Features="FeatAll"), dict(simulate=2600 if quick else 7000, depth=400, timeout=2400, cap=600 if quick else None)))
     # (d) sampled: the same with 2 client-side terminators (e.g. flush failure + unsubscribe, remove client + shutdown)
-    s, n = sc.generate(ctx, "sim2", sc.gen_cfg("sim2", MaxEvents=2, MaxTerm=2, MaxSrcTerm=1, MaxHB=1, UseD="FALSE", MaxProbes=1, CfgOK="CfgNoFilt"),
-                       rng, simulate=800 if quick else 4000, depth=400, timeout=2400, cap=400 if quick else None)
-    batches.append(("sim2", s))
-    totals["sim2"] = n
+    jobs.append(("sim2", sc.gen_cfg("sim2", MaxEvents=2, MaxTerm=2, MaxSrcTerm=1, MaxHB=1, UseD="FALSE", MaxProbes=1, CfgOK="CfgNoFilt"), dict(simulate=800 if quick else 3000, depth=400, timeout=2400, cap=250 if quick else None)))
+    # (d2) sampled: subscriber 1 through the synchronous ResolveGraphQLSubscription (select on its request context / the resolver context /
+    #      completed): client going away, source completion, shutdown, events, a second (asynchronous) subscriber on the same or another trigger
+    jobs.append(("sync", sc.gen_cfg("sync", MaxEvents=2, MaxTerm=2, MaxSrcTerm=1, MaxHB=1, CfgOK="CfgSync", Features="FeatSync", MaxProbes=1), dict(simulate=800 if quick else 4000, depth=400, timeout=2400, cap=300 if quick else None)))
     # (e) sampled: three subscriber slots (two triggers + a joiner, re-subscription chains), CloseSubscription from the source
-    s, n = sc.generate(ctx, "sim3", sc.gen_cfg("sim3", NS=3, MaxEvents=2, MaxTerm=2, MaxSrcTerm=1, MaxHB=1, UseD="FALSE", StartModes="StartOK",
-                                               CfgOK="CfgThree", MaxProbes=1, AllowCloseSub="TRUE"),
-                       rng, simulate=500 if quick else 4000, depth=500, timeout=2400, cap=300 if quick else None)
-    batches.append(("sim3", s))
-    totals["sim3"] = n
+    jobs.append(("sim3", sc.gen_cfg("sim3", NS=3, MaxEvents=2, MaxTerm=2, MaxSrcTerm=1, MaxHB=1, UseD="FALSE", StartModes="StartOK",
+                                               CfgOK="CfgThree", MaxProbes=1, AllowCloseSub="TRUE"), dict(simulate=500 if quick else 2500, depth=500, timeout=2400, cap=250 if quick else None)))
+    gen = sc.generate_all(ctx, jobs)
+    for tag, _, _ in jobs:
+        s, n = gen[tag]
+        if tag == "deliver":
+            rep = []
+            for k, fk in enumerate(sc.FKS):  # once per way of writing the filter value (static / variable: number, array, true, false, string)
+                for x in s:
+                    y = dict(x)
+                    y["id"] = "%s-r%d" % (x["id"], k)
+                    y["kv"] = sc.KVS[k % len(sc.KVS)]
+                    y["fk"] = fk
+                    rep.append(y)
+            s = rep
+        batches.append((tag, s))
+        totals[tag] = n
     # ---- 3./4. replay + validate -------------------------------------------------------------------------------
     tot = sc.run_batches(ctx, PROP, binary, batches)
     mc_future.result()
@@ -100,7 +96,8 @@ def run(ctx):
         "unrealised_schedules": tot["unreal"],
         "invariants_on_traces": sc.INVS[PROP],
         "exhaustive": False,
-        "exhaustive_families": ["term", "deliver"] if not quick else ["deliver"],
+        "exhaustive_families": ["term", "deliver", "fetch", "err"] if not quick else ["deliver"],
+        "sampled": "ev1 capped, sim/sim2/sync/sim3 are -simulate samples (seeded); thorough is a sample too, sized to stay under 30 min",
     })
     ctx.assumptions += [
         "schedules are forced at the verif hook points outside the locks and at the harness gates (Flush); code between two events of one goroutine is atomic with respect to the state it touches (hooks sit inside the protecting lock)",
